@@ -127,7 +127,13 @@ struct ParamRec {
     int other = -1;                  // UNKNOWN / CORRELATED: pool index of the guess / correlate
     bool sfv_null = true;            // CORRELATED recipe
     std::vector<double> sfv, sv;
+    bool has_truth = false;          // UNKNOWN / CORRELATED made for a scenario standard: the value it stands for
+    vm::C truth = vm::C(0, 0);
+    bool solved = false;             // UNKNOWN / CORRELATED: written back by a successful vnacal_new_solve ...
+    std::vector<double> solved_grid; // ... over these calibration frequencies (the LAST successful solve that used it)
 };
+// forced shape of a new vnacal_new_t (scenario operations)
+struct AllocSpec { int ty = -1, r = 1, c = 1, F = 1; std::vector<double> freq; bool defer_freq = false; };
 
 struct CloneCtx;                     // see HistOp
 // one successful state-changing call on a vnacal_new_t, replayable on a clone
@@ -140,6 +146,8 @@ struct NewObj {
     std::vector<cs::Standard> todo;  // baseline standards not yet added
     bool freq_set = false, m_error = false, pristine = true, partial_s = false, has_cal = false, ever_solved = false;
     bool had_fail = false, ok_after_fail = false, failed_solve = false, retried = false;
+    bool noncover = false;           // an ACCEPTED standard uses a vector parameter whose grid misses the scenario's band
+    int adds_attempted = 0;
     std::set<int> registered;        // parameters (pool index) used by accepted standards
     std::vector<HistOp> hist; std::vector<std::string> hist_desc;
     int refused = 0;
@@ -268,8 +276,10 @@ struct Exec {
     // vnacal_new_t (apiexec_cal.hpp)
     void op_new();
     int need_new(int ki);
-    void new_alloc(int ki, bool force_valid = false, bool small = false); void new_free(int ki, int ni); void new_setfreq(int ki, int ni); void new_knobs(int ki, int ni);
-    void new_merror(int ki, int ni); void new_add(int ki, int ni, bool allow_bad); void new_add_unknown(int ki, int ni); void new_solve(int ki, int ni);
+    void new_alloc(int ki, bool force_valid = false, bool small = false, const AllocSpec *spec = nullptr); void new_free(int ki, int ni); void new_setfreq(int ki, int ni, bool force_valid = false); void new_knobs(int ki, int ni);
+    void new_merror(int ki, int ni); void new_add(int ki, int ni, bool allow_bad, int force_twist = -1); void new_add_unknown(int ki, int ni, int reuse = -1); bool new_solve(int ki, int ni);
+    void mark_solved(CalObj &K, NewObj &N);
+    void shared_unknown_scenario(int ki); void late_setfreq_scenario(int ki);
     void new_retry_scenario(int ki);
     void quick_calibration(int ki);
     int cell_param(int ki, NewObj &N, cs::SCell &cell);
